@@ -589,6 +589,19 @@ void _mi_error_message(int err, const char* fmt, ...) {
 #include <string.h> // strstr
 
 
+// is `s` exactly one of the `;`-separated keywords in `list`? (case-insensitive)
+static bool mi_option_is_keyword(const char* s, const char* list) {
+  const size_t len = _mi_strlen(s);
+  if (len == 0) return false;
+  while (*list != 0) {
+    const char* end = list;
+    while (*end != 0 && *end != ';') { end++; }
+    if ((size_t)(end - list) == len && _mi_strnicmp(s, list, len) == 0) return true;
+    list = (*end == ';' ? end + 1 : end);
+  }
+  return false;
+}
+
 static void mi_option_init(mi_option_desc_t* desc) {
   // Read option value from the environment
   char s[64 + 1];
@@ -611,11 +624,11 @@ static void mi_option_init(mi_option_desc_t* desc) {
       buf[i] = _mi_toupper(s[i]);
     }
     buf[len] = 0;
-    if (buf[0] == 0 || strstr("1;TRUE;YES;ON", buf) != NULL) {
+    if (buf[0] == 0 || mi_option_is_keyword(buf, "1;TRUE;YES;ON")) {
       desc->value = 1;
       desc->init = INITIALIZED;
     }
-    else if (strstr("0;FALSE;NO;OFF", buf) != NULL) {
+    else if (mi_option_is_keyword(buf, "0;FALSE;NO;OFF")) {
       desc->value = 0;
       desc->init = INITIALIZED;
     }
